@@ -17,6 +17,21 @@ Theorem C16_lockset_sound :
 Proof. exact lockset_sound. Qed.
 Print Assumptions C16_lockset_sound.
 
+(* the per-run obligation and the discipline together: whenever the obligation evaluates to true on the regenerated
+   summary, two conflicting serving-phase accesses that the summary lists for a location outside the committed list
+   are BOTH under the lock, hence - in every execution that performs them under the lock where the summary says so -
+   ordered by a release/acquire pair *)
+Theorem C16_obligation_sound :
+  forall known s l pre mid post t1 t2 x a1 a2,
+  obligation known s = true -> In a1 s -> In a2 s -> a_loc a1 = a_loc a2 -> ~ In (a_loc a1) known ->
+  a_startup a1 = false -> a_startup a2 = false -> (a_write a1 = true \/ a_write a2 = true) ->
+  wf l None (pre ++ Acc t1 x (a_write a1) :: mid ++ Acc t2 x (a_write a2) :: post) -> t1 <> t2 ->
+  (a_locked a1 = true -> after l None pre = Some t1) ->
+  (a_locked a2 = true -> after l None (pre ++ Acc t1 x (a_write a1) :: mid) = Some t2) ->
+  exists a b c, mid = (a ++ Rel t1 l :: b ++ Acq t2 l :: c)%list.
+Proof. exact obligation_sound. Qed.
+Print Assumptions C16_obligation_sound.
+
 (* the hypotheses are satisfiable, and the conclusion is about a real hand-over: thread 1 writes x under lock 7,
    releases it, thread 2 takes it and reads x *)
 Example C16_handover_example :
